@@ -362,7 +362,11 @@ func genC11(c *Ctx) {
 				ys[a], ys[b] = ys[b], ys[a]
 			}
 		}
-		script := patch.MyersDiff(sElems(xs), sElems(ys), leafEq)
+		script, pan := safeMyers(xs, ys)
+		if pan != "" {
+			c.Violate("myers-panic", fmt.Sprintf("MyersDiff panics on %v -> %v: %s", xs, ys, pan), []string{fmt.Sprintf("# myers %s %s", intsStr(xs), intsStr(ys))}, nil)
+			continue
+		}
 		line := fmt.Sprintf("leaf %s %s %s", intsStr(xs), intsStr(ys), scriptStr(script))
 		out := c.Emit(line, len(xs)+len(ys) > 0)
 		if !strings.Contains(out, "applies=1") {
@@ -374,6 +378,15 @@ func genC11(c *Ctx) {
 	}
 	c11Trees(c)
 	c11Flow(c)
+}
+
+func safeMyers(xs, ys []int) (script []patch.Op, pan string) {
+	defer func() {
+		if r := recover(); r != nil {
+			pan = fmt.Sprint(r)
+		}
+	}()
+	return patch.MyersDiff(sElems(xs), sElems(ys), leafEq), ""
 }
 
 func intsStr(l []int) string {
